@@ -4,6 +4,21 @@ import json, os
 HERE = os.path.dirname(os.path.dirname(os.path.abspath(__file__)))
 ALL = ["C%02d" % i for i in range(1, 21)]
 CHECKS = {
+ "C01": dict(
+   technique="TLA+ spec LspServer.tla model-checked (3 named deviations must yield counterexamples); TLC-enumerated/simulated message sessions rendered and run through the real LangServer.run loop; recorded consume/write traces validated by TLC against LspServerTrace.tla",
+   text="Every abstract session of <=3 (quick) / <=4 (thorough) messages over 5 request and 5 notification classes x ids, with and without initialize, plus simulated sessions of length 12, is run through the real connection class and server loop; TLC accepts a recorded trace only if each consumed request is followed by exactly one response with its id and an allowed tag before the next message is consumed, notifications write no response, and no input is left unread unless exit was consumed.",
+   note="Trusted: TLC, trace recorder (subclass of the real JSONRPC2Connection wrapping read_message/_send), seeded rendering of classes to concrete methods/params. Well-formed JSON-RPC only; no batches.",
+   design="4/C01"),
+ "C09": dict(
+   technique="sweep of every (line, character, method) through LangServer.handle; each exchange becomes a trace validated by TLC against LspServerTrace.tla in strict mode (result required; RangeOk on every returned range with recorded line geometry)",
+   text="All positions (incl. one past each line end and past the last line) of sample sources, seeded mutations of them and a generated file naming every bundled intrinsic/keyword, x 9 positional methods; diagnostics ranges included. TLC decides acceptance of each distinct (method, tag, ranges+geometry) outcome.",
+   note="Trusted: TLC, range extractor (walks Location/TextEdit/Diagnostic shapes), geometry read from the server's own buffer. Outcomes are de-duplicated before validation; in-process handle() rather than stdio.",
+   design="4/C09"),
+ "C16": dict(
+   technique="TLA+ spec Framing.tla model-checked (reference reader; two named deviations must yield counterexamples); TLC-enumerated (messages, header order, chunking) behaviours replayed into the real JSONRPC2Connection behind io.BufferedReader; server output frames validated by TLC against FramingTrace.tla; Uri.tla path shapes replayed into path_to_uri/path_from_uri against an independent RFC 3986 codec",
+   text="Exhaustive within the bound: <=2 messages x UTF-8 width classes 1..4 x 3 header orders x all chunkings with <=2/3 cuts (raw UTF-8 and \\u-escaped renderings), plus unit-wise delivery of a 9-message stream; outbound frames of sessions with non-ASCII payloads and paths must have Content-Length = byte length of the JSON value that follows.",
+   note="Trusted: TLC, renderer width-class->bytes, independent frame reader and percent codec (written from the RFCs, not from jsonrpc.py).",
+   design="4/C16"),
  "C02": dict(
    technique="TLA+ spec DocText.tla: TLC model checking of edit laws + exhaustive spec->code replay of TLC-enumerated (document, edit) transitions + TLC trace validation (DocTextTrace.tla) of recorded server sessions",
    text="TLC proves the reference edit semantics self-consistent (structured = character-level, line-count law, identity, whole-range = full) on a small bound; every transition instance TLC enumerates (3.4e5 quick) is replayed into FortranFile.apply_change and compared line for line; simulated multi-change sessions go through a live server; random-editor traces from the live server are accepted/rejected by TLC.",
